@@ -45,7 +45,7 @@ func main() {
 		"A:must:deviation>=threshold", "A:mustnot:cooldown", "A:deviation-exactly-at-threshold", "A:deviation-one-bp-below-threshold-not-forced",
 		"A:unavailable-held-back", "A:unavailable-sent-near-deadline", "A:feed-list-changed", "A:feed-removed-from-list", "A:interval-shrunk-for-current-feed", "A:huge-price-moved-beyond-deviation", "A:slot-range-checked",
 		"B:submissions-handed-off", "B:finished:success", "B:finished:gave-up", "B:fault:broadcast-error", "B:fault:simulate-error", "B:fault:tx-never-found",
-		"B:fault:nonzero-code", "B:released-at-quiescence"} {
+		"B:fault:nonzero-code", "B:released-at-quiescence", "B:fault:feeder-key-deleted-while-running"} {
 		run.Require(c, 1)
 	}
 	run.Finish()
